@@ -14,10 +14,26 @@ def calls(node, nested=True):
 
 
 def all_calls(repo):
-    for m in repo.modules.values():
-        for n in ast.walk(m.tree):
-            if isinstance(n, ast.Call):
-                yield m, n
+    cache = getattr(repo, '_all_calls', None)
+    if cache is None:
+        cache = []
+        by_name = {}
+        for m in repo.modules.values():
+            for n in ast.walk(m.tree):
+                if isinstance(n, ast.Call):
+                    cache.append((m, n))
+                    by_name.setdefault(attr_name(n.func), []).append((m, n))
+        repo._all_calls = cache
+        repo._calls_by_name = by_name
+    return cache
+
+
+def calls_named(repo, names):
+    all_calls(repo)
+    out = []
+    for nm in names:
+        out += repo._calls_by_name.get(nm, [])
+    return out
 
 
 def attr_name(node):
@@ -134,7 +150,32 @@ def find_callers(repo, finfo, by_name_ok=True):
     widening). Returns list of (module, call, exact:bool)."""
     name = finfo.node.name
     out = []
-    for m, c in all_calls(repo):
+    # candidate calls: callee spelled with the function's name, the class
+    # name (constructor) or through a local alias (resolved below)
+    cand_names = {name}
+    if name == '__init__' and finfo.cls is not None:
+        cand_names.add(finfo.cls.name)
+    all_calls(repo)
+    pool = calls_named(repo, cand_names)
+    if name == '__init__':
+        # subclasses constructed by their own name
+        for sub in finfo.cls.subclasses() if finfo.cls else []:
+            pool += calls_named(repo, {sub.name})
+    aliases = getattr(repo, '_alias_names', None)
+    if aliases is None:
+        aliases = {}
+        for m in repo.modules.values():
+            for loc, imp in m.imports.items():
+                if imp[0] == 'symbol' and loc != imp[2]:
+                    aliases.setdefault(imp[2], set()).add(loc)
+        repo._alias_names = aliases
+    for al in aliases.get(name, ()):
+        pool += calls_named(repo, {al})
+    seen_ids = set()
+    for m, c in pool:
+        if id(c) in seen_ids:
+            continue
+        seen_ids.add(id(c))
         f = c.func
         r = repo.resolve_expr(m, f) if isinstance(
             f, (ast.Name, ast.Attribute)) else None
